@@ -105,6 +105,23 @@ def jonesStokes (j : J2 K) (s : S4 K) : S4 K := (stokesOfCoh (j * coh2 s * j.adj
 /-- Stokes vector of a scalar wavefront (unpolarised convention): `(|e|², 0, 0, 0)`. -/
 def scalarStokes (e : Cx K) : S4 K := ⟨e.normSq, 0, 0, 0⟩
 
+/-! ### Degrees of polarisation reported from a Stokes vector (squares, so that no square root is needed)
+
+`Wavefront.degree_of_polarization = √(Q²+U²+V²)/I`, `degree_of_linear_polarization = √(Q²+U²)/I`,
+`degree_of_circular_polarization = V/I`, `ellipticity = V/(I+√(Q²+U²))`, `angle_of_linear_polarization = ½ atan2(U, Q)`
+are all functions of the squares below and of the normalised parameters `Q/I, U/I, V/I`. -/
+
+/-- `degree_of_polarization²` -/
+def S4.dopSq (s : S4 K) : K := (s.q * s.q + s.u * s.u + s.v * s.v) / (s.i * s.i)
+/-- `degree_of_linear_polarization²` -/
+def S4.dolpSq (s : S4 K) : K := (s.q * s.q + s.u * s.u) / (s.i * s.i)
+/-- `Q/I` (`= cos(2·angle_of_linear_polarization) · degree_of_linear_polarization`) -/
+def S4.qn (s : S4 K) : K := s.q / s.i
+/-- `U/I` (`= sin(2·angle_of_linear_polarization) · degree_of_linear_polarization`) -/
+def S4.un (s : S4 K) : K := s.u / s.i
+/-- `V/I = degree_of_circular_polarization` -/
+def S4.vn (s : S4 K) : K := s.v / s.i
+
 /-! ### The Mueller matrix as hcipy builds it: `Re (U (J ⊗ J̄) Uᴴ)`, `U = A/√2` -/
 
 /-- `√2 · _U_matrix` of `hcipy/optics/wavefront.py` (rows, Gaussian integers). -/
@@ -147,6 +164,15 @@ def retarder (c s : K) (p x : Cx K) : J2 K :=
 
 /-- `LinearPolarizer.jones_matrix`: `[[c², cs], [cs, s²]]`. -/
 def polarizer (c s : K) : J2 K := ⟨⟨c * c, 0⟩, ⟨c * s, 0⟩, ⟨c * s, 0⟩, ⟨s * s, 0⟩⟩
+
+/-- The two ports of a polarising beam splitter behind a retarder `r` (the identity for
+`LinearPolarizingBeamSplitter`, a quarter-wave plate at 45° for `CircularPolarizingBeamSplitter`), Jones-matrix
+wavefront: `P(θ)·r·E` and `P(θ+π/2)·r·E`. -/
+def splitterPorts (c s : K) (r e : J2 K) : J2 K × J2 K := (polarizer c s * (r * e), polarizer (-s) c * (r * e))
+
+/-- … Jones-vector wavefront. -/
+def splitterPortsV (c s : K) (r : J2 K) (e : V2 K) : V2 K × V2 K :=
+  ((polarizer c s).apply (r.apply e), (polarizer (-s) c).apply (r.apply e))
 
 end
 end HcipyVerif.Jones
